@@ -606,7 +606,7 @@ func ruleC09_2(c *Ctx) {
 				nf := frame{s, r, append(append([]string{}, f.trail...), fmt.Sprintf("b%d", s.Index))}
 				if s == header {
 					paths++
-					if r == "" {
+					if r == "" || strings.HasPrefix(r, "authentication") {
 						bad = append(bad, "continue at "+c.at(x)+" via "+strings.Join(nf.trail, " → "))
 					}
 					continue
@@ -619,7 +619,7 @@ func ruleC09_2(c *Ctx) {
 			nf := frame{s, f.reason, append(append([]string{}, f.trail...), fmt.Sprintf("b%d", s.Index))}
 			if s == header {
 				paths++
-				if f.reason == "" {
+				if f.reason == "" || strings.HasPrefix(f.reason, "authentication") {
 					bad = append(bad, "continue at "+c.at(last)+" via "+strings.Join(nf.trail, " → "))
 				}
 				continue
